@@ -21,7 +21,7 @@ void logBatchPacket(Out& o, const nlohmann::json& p);
 void snapPacket(Out& o, const ASAM::CMP::Packet& p);
 void snapStatus(Out& o, const ASAM::CMP::Status& st, const nlohmann::json& probe);
 void logPending(Out& o, const char* key, const ASAM::CMP::Decoder& dec);
-void logFrames(Out& o, const char* k, const std::vector<std::vector<uint8_t>>& frames);
+void logFrames(Out& o, const char* k, const std::vector<std::vector<uint8_t>>& frames, size_t maxSize = SIZE_MAX);
 
 void runEnc(const nlohmann::json& ep);
 void runDec(const nlohmann::json& ep);
